@@ -33,6 +33,14 @@ theorem exact_under_concurrency (s : Stats) (as : List (Nat × Bool)) (xs : List
     (h : xs.Perm (as.flatMap incsOf)) : xs.foldl Stats.inc s = s.updateAll as := by
   rw [updateAll_eq_incs]; exact incs_order_independent s xs _ h
 
+/-- the figures only ever grow: no sequence of send attempts makes any of them smaller (there is no
+"taking back" of a dropped datagram that a retry later delivers) -/
+theorem counters_never_decrease (s : Stats) (as : List (Nat × Bool)) :
+    s.bytesSent ≤ (s.updateAll as).bytesSent ∧ s.packetsSent ≤ (s.updateAll as).packetsSent ∧
+    s.bytesDropped ≤ (s.updateAll as).bytesDropped ∧ s.packetsDropped ≤ (s.updateAll as).packetsDropped := by
+  have h := counters_add_up s as
+  omega
+
 example : ({} : Stats).updateAll [(7, true), (70000, false), (3, true)] = ⟨10, 2, 70000, 1⟩ := by decide
 
 end C14
